@@ -14,10 +14,10 @@ LEVEL = "exploration"
 
 POWER = {"hertz_para": 1.5, "hertz_cone": 2.0, "hertz_pyr3s": 2.0}
 KS = [0.1, 0.23, 1 / math.pi, 0.5, 0.6, 2.0]
-CP_TRUE = 0.0
+CP_TRUE = 1.5e-7
 DEPTH = 9e-7
 MODES = ["abs-whole", "abs-interval", "relative", "plateau"]
-CP0S = [0.0, 6e-8, -4e-8]
+CP0S = [1.5e-7, 2.1e-7, 0.0]
 
 
 #: for the plateau search the data come from another model, so that the
@@ -63,11 +63,11 @@ def run_fit(mk, noisy, seg, mode, cp0, k, recorded=None, fixed=()):
     if mode == "abs-whole":
         kw.update(range_type="absolute", range_x=[0, 0])
     elif mode == "abs-interval":
-        kw.update(range_type="absolute", range_x=[-7e-7, 4e-7])
+        kw.update(range_type="absolute", range_x=[-5.5e-7, 5.5e-7])
     elif mode == "relative":
         kw.update(range_type="relative cp", range_x=[-6e-7, 3e-7])
     elif mode == "plateau":
-        kw.update(range_type="absolute", range_x=[-8e-7, 5e-7],
+        kw.update(range_type="absolute", range_x=[-6.5e-7, 6.5e-7],
                   optimal_fit_edelta=True, optimal_fit_num_samples=8)
     ops.install_counters()
     ops.Counters.passes = []
